@@ -363,7 +363,30 @@ def replay_concat(ns, ob, model):
     return False, dict(note="every operand kind is refused with TypeError on both sides")
 
 
+def replay_embedded(ns, ob, model):
+    """the mapping laws of an embedded registry on generated well-formed archives (three unsorted members whose LOCUS
+    names differ from their ids, one member, none) -- the same scenarios as C20's bounded part"""
+    from props import C20
+
+    class _Ctx(object):
+        seed = 0
+
+    viol = []
+    C20.embedded_scenarios(_Ctx, ns, viol)
+    if viol:
+        return True, dict(call=viol[0]["what"], case=viol[0].get("case"), further=[v_["what"][:200] for v_ in viol[1:4]])
+    return False, dict(note="the mapping laws hold on the generated archives (three / one / none)")
+
+
 REPLAY = {
+    "EmbeddedRegistry._data": replay_embedded,
+    "EmbeddedRegistry.__getitem__": replay_embedded,
+    "EmbeddedRegistry.__iter__": replay_embedded,
+    "EmbeddedRegistry.__len__": replay_embedded,
+    "EmbeddedRegistry.__eq__": replay_embedded,
+    "EmbeddedRegistry.__hash__": replay_embedded,
+    "EmbeddedRegistry._load_name": replay_embedded,
+    "EmbeddedRegistry._load_resistance": replay_embedded,
     "CircularRecord.__add__": replay_concat,
     "CircularRecord.__radd__": replay_concat,
     "isabstract": replay_isabstract,
